@@ -1,6 +1,7 @@
 #!/usr/bin/env python3
 """Re-runs every stored seeded change against the CURRENT checks (those recorded in its meta.json) and rewrites
-the outcome in the meta file; prints one line per change.  Scratch worktrees /tmp/seedwork_md/Cxx must exist."""
+the outcome in the meta file; prints one line per change.  Scratch worktrees /tmp/seedwork_md/Cxx must exist
+(tools/mk_worktrees.sh creates them, mk_worktrees.sh --remove deletes them)."""
 import glob, json, os, subprocess, sys
 rows = []
 only = set(sys.argv[1:])            # optional property ids: retest_all.py C01 C02 (run several groups in parallel)
